@@ -20,6 +20,9 @@ use std::fmt::Write as _;
 use trust_runtime::harness::TestHarness;
 use trust_runtime::value::Value;
 
+#[path = "c01/obs.rs"]
+pub mod obs;
+
 // ------------------------------------------------------------------------------------------
 // AST (mirrors lean/TrustVerif/Model/StCore.lean)
 // ------------------------------------------------------------------------------------------
@@ -1358,6 +1361,18 @@ impl<'a> Gen<'a> {
         let quotient = Expr::Bin(op, Box::new(Expr::Var(n)), Box::new(Expr::Var(d.clone())));
         let cmp = *self.rng.pick(&[BinOp::Gt, BinOp::Le, BinOp::Eq, BinOp::Ne]);
         let rhs = Expr::Bin(cmp, Box::new(quotient), Box::new(Expr::Lit(Some(k), self.rng.below(3) as i128)));
+        // one time in three the possibly faulting operand comes FIRST and the other operand is a
+        // bare BOOL variable or literal: the left operand must still be evaluated
+        if self.rng.chance(1, 3) {
+            let bools = self.bool_vars();
+            let right = if bools.is_empty() || self.rng.chance(1, 4) {
+                Expr::BLit(self.rng.bool())
+            } else {
+                Expr::Var(self.rng.pick(&bools).clone())
+            };
+            let op = if self.rng.bool() { BinOp::And } else { BinOp::Or };
+            return Some(Expr::Bin(op, Box::new(rhs), Box::new(right)));
+        }
         Some(if self.rng.bool() {
             Expr::Bin(
                 BinOp::And,
@@ -1924,10 +1939,54 @@ impl<'a> Gen<'a> {
         if self.rng.chance(2, 5) {
             params.push(Param { name: "pq0".into(), ty: pick_ty(self.rng), dir: Dir::InOut, default: None });
         }
-        let mut locals = Vec::new();
+        let mut locals: Vec<Local> = Vec::new();
         for i in 0..self.rng.below(3) as usize {
             let ty = pick_ty(self.rng);
-            let init = if self.rng.chance(1, 2) { Some(lit_for(self.rng, ty, self.profile)) } else { None };
+            let init = match self.rng.below(6) {
+                0 | 1 => None,
+                2 | 3 => Some(lit_for(self.rng, ty, self.profile)),
+                _ => {
+                    // an initialiser that is an EXPRESSION over the parameters and the earlier
+                    // locals: evaluated by `init_locals` at every call, in the new frame, and able
+                    // to raise a value-dependent fault there (division by an input, overflow)
+                    let mut scope: Vec<VarDecl> = Vec::new();
+                    for p in &params {
+                        scope.push(VarDecl { name: p.name.clone(), ty: p.ty, init: 0, typed_init: false, has_init: false });
+                    }
+                    for l in &locals {
+                        scope.push(VarDecl { name: l.name.clone(), ty: l.ty, init: 0, typed_init: false, has_init: false });
+                    }
+                    let known = scope.len();
+                    let profile = self.profile;
+                    let mut sub = Gen::new(self.rng, profile, false);
+                    sub.decls = scope;
+                    let e = match ty {
+                        Ty::Bool => sub.cond(1),
+                        Ty::Int(k) => {
+                            let vars = sub.int_vars(&[k]);
+                            if vars.len() >= 1 && sub.rng.chance(1, 2) {
+                                let n = sub.rng.pick(&vars).clone();
+                                let d = sub.rng.pick(&vars).clone();
+                                let op = if sub.rng.bool() { BinOp::Div } else { BinOp::Mod };
+                                bin(op, bin(BinOp::Mul, v(&n), v(&n)), v(&d))
+                            } else {
+                                sub.int_expr(k, 1)
+                            }
+                        }
+                    };
+                    if sub.decls.len() == known { Some(e) } else { None }
+                }
+            };
+            let init = if self.sab("local-init-undefined") {
+                Some(v("nosuch"))
+            } else if self.sab("local-init-family") {
+                Some(match ty {
+                    Ty::Bool => Expr::Lit(None, 1),
+                    Ty::Int(_) => Expr::BLit(true),
+                })
+            } else {
+                init
+            };
             locals.push(Local { name: format!("lt{i}"), ty, init });
         }
         // body generated by a sub-generator whose scope is the function's own
@@ -2877,6 +2936,38 @@ pub fn witnesses() -> Vec<(&'static str, Program)> {
             },
         ),
         (
+            // the initialiser of a FUNCTION local is never checked: an undefined name ...
+            "local-init-undefined",
+            Program {
+                fbs: Vec::new(), insts: Vec::new(), aggs: Vec::new(),
+                funcs: vec![FuncDef {
+                    name: "F0".into(),
+                    ret: int(DInt),
+                    params: vec![Param { name: "pa0".into(), ty: int(DInt), dir: Dir::In, default: None }],
+                    locals: vec![Local { name: "lt0".into(), ty: int(DInt), init: Some(v("nosuch")) }],
+                    body: vec![asg("F0", v("pa0"))],
+                }],
+                decls: vec![decl("d", int(DInt), 0)],
+                body: vec![asg("d", Expr::Call("F0".into(), vec![Arg { name: Some("pa0".into()), arrow: false, e: lit(1) }]))],
+            },
+        ),
+        (
+            // ... or a BOOL in an INT local, which then travels through the result into `d : INT`
+            "local-init-family",
+            Program {
+                fbs: Vec::new(), insts: Vec::new(), aggs: Vec::new(),
+                funcs: vec![FuncDef {
+                    name: "F0".into(),
+                    ret: int(Int),
+                    params: vec![Param { name: "pa0".into(), ty: int(Int), dir: Dir::In, default: None }],
+                    locals: vec![Local { name: "lt0".into(), ty: int(Int), init: Some(Expr::BLit(true)) }],
+                    body: vec![asg("F0", v("lt0"))],
+                }],
+                decls: vec![decl("d", int(Int), 0)],
+                body: vec![asg("d", Expr::Call("F0".into(), vec![Arg { name: Some("pa0".into()), arrow: false, e: tl(Int, 1) }]))],
+            },
+        ),
+        (
             "drift-widening-assignment",
             Program {
                 funcs: Vec::new(), fbs: Vec::new(), insts: Vec::new(), aggs: Vec::new(),
@@ -2983,6 +3074,14 @@ pub fn raw_witnesses() -> Vec<(&'static str, &'static str)> {
         (
             "struct-field-case",
             "TYPE Pt : STRUCT x : INT; y : DINT; END_STRUCT END_TYPE\nPROGRAM P\nVAR\n  p : Pt; v : INT;\nEND_VAR\nv := p.X;\nEND_PROGRAM\n",
+        ),
+        (
+            "temp-initialiser-undefined",
+            "PROGRAM P\nVAR\n  x : INT;\nEND_VAR\nVAR_TEMP\n  t : INT := nosuch;\nEND_VAR\nx := t;\nEND_PROGRAM\n",
+        ),
+        (
+            "temp-initialiser-family",
+            "PROGRAM P\nVAR\n  x : INT; y : BOOL;\nEND_VAR\nVAR_TEMP\n  t : INT := TRUE; u : BOOL := 3;\nEND_VAR\nx := t;\ny := u;\nEND_PROGRAM\n",
         ),
         (
             "return-variable-case",
@@ -3134,6 +3233,219 @@ pub fn matrix_programs() -> Vec<(String, Program)> {
             ));
         }
     }
+    out.extend(boundary_programs());
+    out.extend(loop_control_programs());
+    out.extend(short_circuit_programs());
+    out
+}
+
+fn plain(decls: Vec<VarDecl>, body: Vec<Stmt>) -> Program {
+    Program { funcs: Vec::new(), fbs: Vec::new(), insts: Vec::new(), aggs: Vec::new(), decls, body }
+}
+
+fn tdecl(name: &str, ty: Ty, init: i128) -> VarDecl {
+    VarDecl { name: name.into(), ty, init, typed_init: true, has_init: true }
+}
+
+/// A variable of kind `k` that holds `val` when the statements have run.  The extremes are
+/// COMPUTED (`lo = (lo+1) - 1`, `hi = (hi-1) + 1`, ULINT above `i64::MAX` by doubling): the literal
+/// parser cannot even write `LINT` minimum or a ULINT above `i64::MAX`.
+fn computed(name: &str, k: IKind, val: i128) -> (VarDecl, Vec<Stmt>) {
+    let (lo, hi) = (k.lo(), k.hi());
+    let one = || tl(k, 1);
+    if k == IKind::ULInt && val > i64::MAX as i128 {
+        let mut e = bin(BinOp::Mul, v(name), tl(k, 2));
+        if val == hi {
+            e = bin(BinOp::Add, e, one());
+        }
+        assert!(val == hi || val == hi - 1);
+        (tdecl(name, Ty::Int(k), i64::MAX as i128), vec![asg(name, e)])
+    } else if val == lo && k.signed() {
+        (tdecl(name, Ty::Int(k), lo + 1), vec![asg(name, bin(BinOp::Sub, v(name), one()))])
+    } else if val == hi {
+        (tdecl(name, Ty::Int(k), hi - 1), vec![asg(name, bin(BinOp::Add, v(name), one()))])
+    } else {
+        (tdecl(name, Ty::Int(k), val), Vec::new())
+    }
+}
+
+/// Boundary stream: every arithmetic operator of every integer kind on operand pairs drawn from
+/// the extremes of the kind (minimum, maximum, their neighbours, -1, 0, 1), the extremes being
+/// computed at run time.  Exact kinds and typed literals only: the programs are inside `Strict`,
+/// so the reference decides value and fault of every one of them.
+pub fn boundary_programs() -> Vec<(String, Program)> {
+    let mut out = Vec::new();
+    for &k in &KINDS {
+        let (lo, hi) = (k.lo(), k.hi());
+        let (lefts, rights): (Vec<i128>, Vec<i128>) = if k.signed() {
+            (vec![lo, lo + 1, -1, 0, 1, hi - 1, hi], vec![lo, -1, 0, 1, 2, hi])
+        } else {
+            (vec![0, 1, hi - 1, hi], vec![0, 1, 2, hi])
+        };
+        for (opname, op) in [("add", BinOp::Add), ("sub", BinOp::Sub), ("mul", BinOp::Mul), ("div", BinOp::Div), ("mod", BinOp::Mod)] {
+            for &a in &lefts {
+                for &b in &rights {
+                    let (da, mut body) = computed("a", k, a);
+                    let (db, sb) = computed("b", k, b);
+                    body.extend(sb);
+                    body.push(asg("r", bin(op, v("a"), v("b"))));
+                    out.push((
+                        format!("bnd-{opname}-{}-{a}-{b}", k.name()),
+                        plain(vec![da, db, tdecl("r", Ty::Int(k), 0)], body),
+                    ));
+                }
+            }
+        }
+        // `**` (outside the reference: C01 only) and unary minus at the extremes
+        for &a in &[lo, -1, 2, hi] {
+            if a < 0 && !k.signed() {
+                continue;
+            }
+            for &b in &[0i128, 1, 2, 7, 31, 63, 64] {
+                let (da, mut body) = computed("a", k, a);
+                body.push(asg("r", bin(BinOp::Pow, v("a"), tl(k, b))));
+                out.push((format!("bnd-pow-{}-{a}-{b}", k.name()), plain(vec![da, tdecl("r", Ty::Int(k), 0)], body)));
+            }
+        }
+        if k.signed() {
+            for &a in &[lo, lo + 1, -1, 0, hi] {
+                let (da, mut body) = computed("a", k, a);
+                body.push(asg("r", neg(v("a"))));
+                out.push((format!("bnd-neg-{}-{a}", k.name()), plain(vec![da, tdecl("r", Ty::Int(k), 0)], body)));
+            }
+        }
+    }
+    out
+}
+
+/// Loop-control stream: CONTINUE / EXIT in FOR, WHILE and REPEAT at every position of the body
+/// (first, middle, last statement), triggered on the first, a middle, the LAST or no pass; plus
+/// nested loops where the inner EXIT / CONTINUE must not touch the outer loop.
+pub fn loop_control_programs() -> Vec<(String, Program)> {
+    let d = |n: &str| VarDecl { name: n.into(), ty: Ty::Int(IKind::DInt), init: 0, typed_init: false, has_init: true };
+    let inc = |x: &str| asg(x, bin(BinOp::Add, v(x), lit(1)));
+    let mut out = Vec::new();
+    let passes: i128 = 3;
+    let wrap = |kind: &str, body: Vec<Stmt>, w: &str| -> Stmt {
+        match kind {
+            "for" => Stmt::For(format!("i{w}"), lit(1), lit(passes), None, body),
+            "while" => Stmt::While(bin(BinOp::Lt, v(w), lit(passes)), body),
+            _ => Stmt::Repeat(body, bin(BinOp::Ge, v(w), lit(passes))),
+        }
+    };
+    for kind in ["for", "while", "repeat"] {
+        for (cname, ctl) in [("continue", Stmt::Continue), ("exit", Stmt::Exit)] {
+            for trigger in 1..=passes + 1 {
+                for pos in 0..3usize {
+                    // `w` counts the passes (incremented first, so that CONTINUE cannot starve the loop)
+                    let mut body = vec![inc("w"), asg("s", bin(BinOp::Add, v("s"), v("w"))), inc("q")];
+                    let guard = Stmt::If(bin(BinOp::Eq, v("w"), lit(trigger)), vec![ctl.clone()], Vec::new(), Vec::new());
+                    body.insert(pos + 1, guard);
+                    let prog = plain(
+                        vec![d("w"), d("s"), d("q"), d("iw"), d("after")],
+                        vec![wrap(kind, body, "w"), asg("after", bin(BinOp::Add, v("w"), lit(100)))],
+                    );
+                    out.push((format!("loop-{kind}-{cname}-pass{trigger}-pos{pos}"), prog));
+                }
+            }
+        }
+    }
+    for outer in ["for", "while", "repeat"] {
+        for inner in ["for", "while", "repeat"] {
+            for (cname, ctl) in [("continue", Stmt::Continue), ("exit", Stmt::Exit)] {
+                let inner_body = vec![
+                    inc("u"),
+                    Stmt::If(bin(BinOp::Eq, v("u"), lit(2)), vec![ctl.clone()], Vec::new(), Vec::new()),
+                    inc("n"),
+                ];
+                let outer_body = vec![inc("w"), asg("u", lit(0)), wrap(inner, inner_body, "u"), inc("q")];
+                let prog = plain(
+                    vec![d("w"), d("u"), d("n"), d("q"), d("iw"), d("iu")],
+                    vec![wrap(outer, outer_body, "w")],
+                );
+                out.push((format!("nest-{outer}-{inner}-{cname}"), prog));
+            }
+        }
+    }
+    out
+}
+
+/// Short-circuit stream: `L AND R` / `L OR R` where R is a bare variable, a literal or a compound
+/// expression holding the absorbing or the neutral value, and L is pure, divides by zero,
+/// overflows or runs off an array: only the RIGHT operand may be skipped, and only when the left
+/// one decides.
+pub fn short_circuit_programs() -> Vec<(String, Program)> {
+    let mut out = Vec::new();
+    let int = Ty::Int(IKind::Int);
+    for (opname, op, absorbing) in [("and", BinOp::And, false), ("or", BinOp::Or, true)] {
+        for (lname, z, big, ix) in [("pure", 1i128, 1i128, 1i128), ("divzero", 0, 1, 1), ("overflow", 1, 32767, 1), ("index", 1, 1, 9)] {
+            // k / z > 0 ; k + big > 0 ; ar[ix] > 0 — combined with AND so that each left operand
+            // evaluates all three pieces
+            let left = bin(
+                BinOp::Gt,
+                bin(
+                    BinOp::Add,
+                    bin(BinOp::Div, v("k"), v("z")),
+                    bin(BinOp::Add, bin(BinOp::Add, v("k"), v("big")), Expr::Idx("ar".into(), Box::new(v("ix")))),
+                ),
+                tl(IKind::Int, 0),
+            );
+            for (rname, right, e_init) in [
+                ("var-absorbing", v("e"), absorbing),
+                ("var-neutral", v("e"), !absorbing),
+                ("lit-absorbing", Expr::BLit(absorbing), false),
+                ("lit-neutral", Expr::BLit(!absorbing), false),
+                ("compound-absorbing", bin(BinOp::Eq, v("e"), Expr::BLit(true)), absorbing),
+            ] {
+                for flipped in [false, true] {
+                    let (l, r) = if flipped { (right.clone(), left.clone()) } else { (left.clone(), right.clone()) };
+                    let prog = Program {
+                        funcs: Vec::new(), fbs: Vec::new(), insts: Vec::new(),
+                        aggs: vec![("ar".to_string(), AggDecl::Arr(0, 3, int))],
+                        decls: vec![
+                            tdecl("k", int, 4), tdecl("z", int, z), tdecl("big", int, big), tdecl("ix", int, ix),
+                            VarDecl { name: "e".into(), ty: Ty::Bool, init: e_init as i128, typed_init: false, has_init: true },
+                            VarDecl { name: "res".into(), ty: Ty::Bool, init: 0, typed_init: false, has_init: true },
+                            tdecl("after", int, 0),
+                        ],
+                        body: vec![asg("res", bin(op, l, r)), asg("after", tl(IKind::Int, 1))],
+                    };
+                    out.push((format!("sc-{opname}-{lname}-{rname}-{}", if flipped { "rl" } else { "lr" }), prog));
+                }
+            }
+        }
+    }
+    // the skipped operand has a side effect: a FUNCTION that increments its VAR_IN_OUT
+    let bump = FuncDef {
+        name: "Bump".into(),
+        ret: int,
+        params: vec![Param { name: "x".into(), ty: int, dir: Dir::InOut, default: None }],
+        locals: Vec::new(),
+        body: vec![asg("x", bin(BinOp::Add, v("x"), tl(IKind::Int, 1))), asg("Bump", v("x"))],
+    };
+    for (opname, op, absorbing) in [("and", BinOp::And, false), ("or", BinOp::Or, true)] {
+        for (rname, right, e_init) in [
+            ("var-absorbing", v("e"), absorbing),
+            ("var-neutral", v("e"), !absorbing),
+            ("lit-absorbing", Expr::BLit(absorbing), false),
+        ] {
+            for flipped in [false, true] {
+                let call = Expr::Call("Bump".into(), vec![Arg { name: Some("x".into()), arrow: false, e: v("n") }]);
+                let left = bin(BinOp::Gt, call, tl(IKind::Int, 0));
+                let (l, r) = if flipped { (right.clone(), left) } else { (left, right.clone()) };
+                let prog = Program {
+                    funcs: vec![bump.clone()], fbs: Vec::new(), insts: Vec::new(), aggs: Vec::new(),
+                    decls: vec![
+                        tdecl("n", int, 0),
+                        VarDecl { name: "e".into(), ty: Ty::Bool, init: e_init as i128, typed_init: false, has_init: true },
+                        VarDecl { name: "res".into(), ty: Ty::Bool, init: 0, typed_init: false, has_init: true },
+                    ],
+                    body: vec![asg("res", bin(op, l, r))],
+                };
+                out.push((format!("sc-{opname}-inout-{rname}-{}", if flipped { "rl" } else { "lr" }), prog));
+            }
+        }
+    }
     out
 }
 
@@ -3155,6 +3467,21 @@ pub fn run_focus(args: &Args, focus: Focus) -> i32 {
     std::panic::set_hook(Box::new(|_| {}));
     let mut out = Out::new();
     let cycles = args.extra_usize("cycles", 3);
+    // development aid: `vharness c01 --srcfile prog.st [--cycles n]` compiles and runs an ST source
+    // with the real code and prints the observations (not used by the checks)
+    if let Some(path) = args.extra.get("srcfile") {
+        let source = std::fs::read_to_string(path).expect("srcfile");
+        match run_real(&source, (0..cycles).map(|_| Vec::new()).collect()) {
+            CaseResult::CompilePanic => println!("compile-panic"),
+            CaseResult::Rejected(m) => println!("reject {m}"),
+            CaseResult::Ran(c) => {
+                for (_, l) in c {
+                    println!("{l}");
+                }
+            }
+        }
+        return 0;
+    }
     let ws = witnesses();
     let raws = raw_witnesses();
     let children = child_witnesses();
@@ -3173,7 +3500,18 @@ pub fn run_focus(args: &Args, focus: Focus) -> i32 {
         }
     };
     let matrix = matrix_programs();
+    // oracle-only streams (src/c01/obs.rs): the C03 mix has more histories, the others more frame cases
+    let frames_cases = args.extra_usize("frames-cases", if focus == Focus::C03 { 60 } else { 150 }) as u64;
+    let history_cases = args.extra_usize("history-cases", if focus == Focus::C03 { 250 } else { 40 }) as u64;
     for n in args.case_numbers() {
+        if n >= obs::HIST_BASE {
+            obs::emit_history_case(&mut out, args.seed, n);
+            continue;
+        }
+        if n >= obs::FRAMES_BASE {
+            obs::emit_frames_case(&mut out, args.seed, n, cycles);
+            continue;
+        }
         if n >= MATRIX_BASE {
             if let Some((id, prog)) = matrix.get((n - MATRIX_BASE) as usize) {
                 emit_case(&mut out, n, prog, &format!("matrix mx-{id}"), vec![Vec::new()]);
@@ -3219,6 +3557,12 @@ pub fn run_focus(args: &Args, focus: Focus) -> i32 {
             emit_case(&mut out, MATRIX_BASE + i as u64, prog, &format!("matrix mx-{id}"), vec![Vec::new()]);
         }
         out.add("matrix-programs", matrix.len() as u64);
+        for i in 0..frames_cases {
+            obs::emit_frames_case(&mut out, args.seed, obs::FRAMES_BASE + i, cycles);
+        }
+        for i in 0..history_cases {
+            obs::emit_history_case(&mut out, args.seed, obs::HIST_BASE + i);
+        }
     }
     out.finish(&args.out);
     0
